@@ -31,3 +31,9 @@ def xor_post(d: "bytes", k: "bytes", r: "bytes") -> "bool":
     """r is d XORed with the repeating key k (identity for an empty or all-zero key)."""
     return len(r) == len(d) and forall(
         lambda i: r[i] == (d[i] if len(k) == 0 else bxor(d[i], k[i % len(k)])), 0, len(d))
+
+
+@spec
+def byte_width(n: "int") -> "int":
+    """minimal number of bytes of a non-negative integer (pack(n) without an explicit size)"""
+    return (n.bit_length() + 7) // 8
